@@ -182,6 +182,13 @@ Query(e) ==
                  If(IF NCells(s) = 0 THEN r.num # 0
                     ELSE r.num * NCells(s) # 100 * Count(D, pre.common) * r.den, "C07:sparsity")
              [] q = "size" -> If(r.n # NCells(s), "C06:size")
+             \* ---- beyond the listed properties (owner X00: reported as a note, never as a violation) ----
+             [] q = "get_noforce" ->      \* the common value is not stored: asking for it gives the default
+                 LET want == IF a.key[1] = pre.common THEN <<>> ELSE SortedSeq(RowsOf(EntPairs(pre), a.key))
+                 IN If(r.none # (want = <<>>) \/ (~r.none /\ r.rows # want), "X00:get-without-force")
+             [] q = "items_noforce" ->
+                 If({<<r.items[j].k, r.items[j].rows>> : j \in DOMAIN r.items} # EntPairs(pre), "X00:items-without-force")
+             [] q = "ndim" -> If(r.n # Len(s), "X00:ndim")
              [] OTHER -> \* "cube_shape": extent inferred by ccube for this dimension
                  If(r.n # Max(RangeOf(D) \cup {pre.common}) + 1, "C07:inferred-cube-extent"))
           \cup Unchanged("C17:receiver-changed", <<e.recv>>, <<e.recvpost>>)
@@ -199,8 +206,27 @@ Eq(e) ==
           \cup If(r.eqother, "C15:equal-to-a-non-index")
           \cup Unchanged("C17:receiver-changed", e.others, e.otherspost)
 
+\* common_common(list of indexes): a value whose total number of occurrences over all of them is maximal (X00)
+CommonCommon(e) ==
+  LET os == [q \in DOMAIN e.others |-> Rep(e.others[q])]
+      tot(v) == FoldSet(LAMBDA q, acc : acc + Count(Abs(os[q]), v), 0, DOMAIN os)
+      vals == UNION {RangeOf(Abs(os[q])) \cup {os[q].common} : q \in DOMAIN os}
+  IN IF e.exc THEN {"X00:common_common-raised"}
+     ELSE If(\E w \in vals : tot(w) > tot(e.ret.v), "X00:common_common-not-most-frequent")
+          \cup Unchanged("C17:receiver-changed", e.others, e.otherspost)
+
+\* set_if(key, rows): drop the key when rows is None/empty, else store the rows (X00)
+SetIf(e) ==
+  LET pre == Rep(e.recv)  post == Rep(e.recvpost)  a == e.args
+      want == IF a.none \/ a.rows = <<>> THEN {p \in EntPairs(pre) : p[1] # a.key}
+              ELSE {p \in EntPairs(pre) : p[1] # a.key} \cup {<<a.key, a.rows>>}
+  IN IF e.exc THEN {"X00:set_if-raised"}
+     ELSE If(EntPairs(post) # want \/ post.shape # pre.shape \/ post.common # pre.common, "X00:set_if")
+
 Judge(e) ==
   LET cs == CASE e.op = "from_array" -> FromArray(e)
+              [] e.op = "common_common" -> CommonCommon(e)
+              [] e.op = "set_if" -> SetIf(e)
               [] e.op = "to_array" -> ToArray(e)
               [] e.op = "shift_common" -> ShiftCommon(e)
               [] e.op = "append" -> AppendOp(e)
